@@ -289,7 +289,9 @@ func c19PeerHeaders(thorough bool) []c19PH {
 
 func c19Constructible(thorough bool) []c19Msg {
 	var out []c19Msg
-	add := func(kind, name string, mk func() *BMPMessage) { out = append(out, c19Msg{name: name, kind: kind, mk: mk}) }
+	add := func(kind, name string, mk func() *BMPMessage) {
+		out = append(out, c19Msg{name: name, kind: kind, mk: mk})
+	}
 	phs := c19PeerHeaders(thorough)
 	few := []c19PH{phs[0], phs[len(phs)/3], phs[len(phs)/2], phs[len(phs)-2], phs[len(phs)-1]}
 	for _, p := range phs {
@@ -318,9 +320,13 @@ func c19Constructible(thorough bool) []c19Msg {
 	}
 	// Termination
 	terms := map[string]func() []BMPTermTLVInterface{
-		"nil":     func() []BMPTermTLVInterface { return nil },
-		"string":  func() []BMPTermTLVInterface { return []BMPTermTLVInterface{NewBMPTermTLVString(BMP_TERM_TLV_TYPE_STRING, "bye")} },
-		"unknown": func() []BMPTermTLVInterface { return []BMPTermTLVInterface{NewBMPTermTLVUnknown(0xff, []byte{1, 2, 3})} },
+		"nil": func() []BMPTermTLVInterface { return nil },
+		"string": func() []BMPTermTLVInterface {
+			return []BMPTermTLVInterface{NewBMPTermTLVString(BMP_TERM_TLV_TYPE_STRING, "bye")}
+		},
+		"unknown": func() []BMPTermTLVInterface {
+			return []BMPTermTLVInterface{NewBMPTermTLVUnknown(0xff, []byte{1, 2, 3})}
+		},
 	}
 	for _, n := range []string{"nil", "string", "unknown"} {
 		add("Termination", "Termination("+n+")", func() *BMPMessage { return NewBMPTermination(terms[n]()) })
